@@ -447,9 +447,17 @@ def gen_reconnect(rng, knobs=None):
     k = dict(knobs or {})
     period = rng.choice([100, 200])
     life = rng.choice([300, 1000, 100000])
-    opts = {'mode': 'tcp', 'keepalive_ms': period, 'lifetime_ms': life, 'read_buffer': rng.choice([7, 1024]), 'frag': rng.choice([None, 64])}
+    opts = {'mode': 'tcp', 'keepalive_ms': period, 'lifetime_ms': life, 'read_buffer': rng.choice([7, 1024]), 'frag': rng.choice([None, 64]),
+            'provider_suspends': rng.choice([0, 0, 1, 3])}
+    # who asks for the reconnect: the driver (application code), or the handler from inside on_close / on_keepalive_timeout
+    who = rng.choice(['app', 'app', 'on_close', 'on_close', 'on_timeout'])
+    rounds = rng.randint(1, 3)
+    if who == 'on_close':
+        opts['reconnect_on_close'] = rounds
+    elif who == 'on_timeout':
+        opts['reconnect_on_timeout'] = rounds
     prog = [['start'], ['pump']]
-    for rnd_i in range(rng.randint(1, 3)):
+    for rnd_i in range(rounds):
         for _ in range(rng.randint(0, 3)):
             kind = rng.choice(['rr', 'stream', 'channel', 'fnf'])
             ep = rng.choice(['c', 'c', 's'])
@@ -464,7 +472,15 @@ def gen_reconnect(rng, knobs=None):
                 prog.append(['channel', ep, sp, 2, {'src': 'scripted', 'pub': True, 'sub': True}, True, {'src': 'scripted'}, True])
             if rng.random() < 0.6:
                 prog.append(['pump'])
-        cause = rng.choice(k.get('causes', ['server_eof', 'error', 'ka_timeout', 'healthy', 'healthy', 'server_close']))
+        causes = k.get('causes', ['server_eof', 'error', 'ka_timeout', 'healthy', 'healthy', 'server_close'])
+        if who == 'on_close':
+            causes = [c for c in causes if c in ('server_eof', 'error', 'server_close')]
+        elif who == 'on_timeout':
+            causes = ['ka_timeout']
+            if life > 5000:
+                life = 300
+                opts['lifetime_ms'] = life
+        cause = rng.choice(causes)
         if cause == 'server_eof':
             prog.append(['cut', 's', 'eof'])
             prog.append(['settle'])
@@ -479,9 +495,10 @@ def gen_reconnect(rng, knobs=None):
             prog.append(['silence'])
             prog.append(['advance', 2 * life + period + 5 if life < 5000 else 50])
             prog.append(['settle'])
-        prog.append(['reconnect'])
-        if rng.random() < 0.3:
+        if who == 'app':
             prog.append(['reconnect'])
+            if rng.random() < 0.3:
+                prog.append(['reconnect'])
         prog.append(['pump'])
         prog.append(['advance', period + 10])
         prog.append(['pump'])
